@@ -370,6 +370,10 @@ def run(ctx):
     calls = [n for n in ast.walk(la.node) if isinstance(n, ast.Call) and attr_call(n, "_protocol", "authenticate")]
     for c in calls:
         tt = ls.ta.terms_at.get(c.args[0]) if c.args else None
+        ct_ = ls.ta.terms_at.get(c)
+        if ct_ is not None and ct_[0] == "call" and ct_[2] and (tt is None or tt[0] == "starred"):
+            # authenticate(*credentials) / keyword spellings: the first argument of the call as the engine bound it
+            tt = ct_[2][0] if ct_[1][0] != "func" else (ct_[2][1] if len(ct_[2]) > 1 else None)
 
         def leaves(x):
             x = strip(x)
